@@ -780,7 +780,11 @@ static void check_step( Ctx& x, const Step& s )
    const std::size_t ro_pre = x.env.roff;
    x.done.push_back( s );
    const char* const opc = op_class( s.op );
-   auto V = [ & ]( const std::string& sig, const std::string& expected, const std::string& observed ) { report( "C07|" + sig, c, x.history(), step_name( s ), expected, observed ); };
+   auto V = [ & ]( const std::string& sig, const std::string& expected, const std::string& observed ) {
+      report( "C07|" + sig, c, x.history(), step_name( s ), expected, observed );
+      // the memory-safety invariants of the buffer are also what C03 states for buffer_input::require
+      if( sig.find( "outside the allocation" ) != std::string::npos ) report( "C03|" + sig, c, x.history(), step_name( s ), expected, observed );
+   };
 
    if( !legal( m, s ) ) {
       x.harness_error = true;
